@@ -7,7 +7,10 @@ class OpContract:
 
     def __init__(self, name, props, file, func, call, params, spec, cells=None, inv="True", requires=None,
                  raises=(), loops=None, sources=("source",), notes="", witness=None, spec_args=None,
-                 scheduler=None, known=None, elem="val", families=None, exclusive=None, stage_args=None):
+                 scheduler=None, known=None, elem="val", families=None, exclusive=None, stage_args=None, live=None):
+        #: multi-source operators: expression over the spec state and the source index `i` saying that source i has not
+        #: terminated yet - assumed when a handler of source i runs (a source emits nothing after its terminal)
+        self.live = live
         #: overrides of the state kinds of callee stages in THIS composition: {stage index: {field: kind}}
         #: (e.g. the accumulation of a scan stage is known to be an AverageValue record here)
         self.stage_args = stage_args or {}
